@@ -38,19 +38,32 @@ func readValue(origstr string, str string, separator byte) (string, string, erro
 }
 
 func keyValParse(str string, separator byte) (map[string]string, error) {
+	_, ret, err := keyValParseOrdered(str, separator)
+	return ret, err
+}
+
+// keyValParseOrdered is like keyValParse, and additionally returns the keys
+// in order of first appearance, in order to allow callers to process them
+// in a deterministic order.
+func keyValParseOrdered(str string, separator byte) ([]string, map[string]string, error) {
 	ret := make(map[string]string)
+	var keys []string
 	origstr := str
 
 	for len(str) > 0 {
 		var k string
 		k, str = readKey(str, separator)
 
+		if _, ok := ret[k]; !ok {
+			keys = append(keys, k)
+		}
+
 		if len(str) > 0 && str[0] == '=' {
 			var v string
 			var err error
 			v, str, err = readValue(origstr, str[1:], separator)
 			if err != nil {
-				return nil, err
+				return nil, nil, err
 			}
 
 			ret[k] = v
@@ -69,5 +82,5 @@ func keyValParse(str string, separator byte) (map[string]string, error) {
 		}
 	}
 
-	return ret, nil
+	return keys, ret, nil
 }
